@@ -8,6 +8,11 @@
 //!   T <n> <cap> <extra> <tree>    tree.take(n)
 //!   I <cap> <extra> <tree>        tree.into_interleaved_samples().into_iter()
 //!   L <id> <nframes> v.. <cap> <extra> <tree>   signal::lift(frames, |arg| tree)
+//!   NC <j> <k> <tree>             j x next, clone the whole stack, k x next on the original, k x next on the clone
+//!   IT <kind> <n> <pre> <mode> <k> <cap> <extra> <tree>
+//!        kind 0 until_exhausted() | 1 take(n) | 2 into_interleaved_samples().into_iter() | 3 ...next_sample()
+//!        after `pre` calls of next: mode 0 drain | 1 clone, drain the original, drain the clone
+//!                                 | 2 nth(k) then drain | 3 skip(k) then drain
 //! tree (prefix): iter <id> <nframes> v.. | samp <id> <n> v.. | eq | gen <id> c.. | genmut <id> <base>
 //!   | map <id> <fn> <k> T | zip <id> <fn> A B | add A B | mul A B | scale <amp> T | offset <off> T
 //!   | scalepc a.. T | offsetpc a.. T | clip <t> T | inspect <id> T | delay <k> T | ref <i> | arg
@@ -46,8 +51,17 @@ fn line(tag: i128, parts: &[&[i128]]) -> String {
     s
 }
 
-/// The local `Box<dyn Signal>` wrapper (the crate's own boxed impl is never compiled).
-pub struct Dyn<'a, F>(Box<dyn Signal<Frame = F> + 'a>);
+/// The local `Box<dyn Signal>` wrapper (the crate's own boxed impl is never compiled), cloneable
+/// through `box_clone` so that whole stacks (and the iterators over them) can be cloned.
+pub trait CSig<'a, F: Frame>: Signal<Frame = F> {
+    fn box_clone(&self) -> Box<dyn CSig<'a, F> + 'a>;
+}
+impl<'a, F: Frame, T: Signal<Frame = F> + Clone + 'a> CSig<'a, F> for T {
+    fn box_clone(&self) -> Box<dyn CSig<'a, F> + 'a> {
+        Box::new(self.clone())
+    }
+}
+pub struct Dyn<'a, F: Frame>(Box<dyn CSig<'a, F> + 'a>);
 impl<'a, F: Frame> Signal for Dyn<'a, F> {
     type Frame = F;
     fn next(&mut self) -> F {
@@ -57,21 +71,59 @@ impl<'a, F: Frame> Signal for Dyn<'a, F> {
         self.0.is_exhausted()
     }
 }
-fn dy<'a, S: Signal + 'a>(s: S) -> Dyn<'a, S::Frame> {
+impl<'a, F: Frame> Clone for Dyn<'a, F> {
+    fn clone(&self) -> Self {
+        Dyn((*self.0).box_clone())
+    }
+}
+fn dy<'a, S: Signal + Clone + 'a>(s: S) -> Dyn<'a, S::Frame> {
     Dyn(Box::new(s))
 }
 
-#[derive(Clone)]
+/// `base.by_ref()`: every call goes through `Signal::by_ref` and `impl Signal for &mut S`.
+/// A borrowed signal cannot be cloned (the generators never clone a stack that borrows).
+struct RefSig<'a, F: Frame>(&'a mut Dyn<'static, F>);
+impl<'a, F: Frame> Signal for RefSig<'a, F> {
+    type Frame = F;
+    fn next(&mut self) -> F {
+        let mut r: &mut Dyn<'static, F> = Signal::by_ref(&mut *self.0);
+        <&mut Dyn<'static, F> as Signal>::next(&mut r)
+    }
+    fn is_exhausted(&self) -> bool {
+        let r: &Dyn<'static, F> = &*self.0;
+        // is_exhausted of `&mut S` needs a `&&mut S`; forward through a shared view of the same impl
+        Signal::is_exhausted(r)
+    }
+}
+impl<'a, F: Frame> Clone for RefSig<'a, F> {
+    fn clone(&self) -> Self {
+        panic!("a borrowed signal cannot be cloned")
+    }
+}
+
 struct LeafH {
     id: i128,
     pulls: Rc<Cell<i128>>,
     ipulls: Rc<Cell<i128>>,
+}
+impl LeafH {
+    /// another handle on the same counters
+    fn share(&self) -> LeafH {
+        LeafH { id: self.id, pulls: self.pulls.clone(), ipulls: self.ipulls.clone() }
+    }
+}
+/// cloning a leaf (as part of cloning a stack) gives the clone its own counters
+impl Clone for LeafH {
+    fn clone(&self) -> LeafH {
+        LeafH { id: self.id, pulls: Rc::new(Cell::new(self.pulls.get())), ipulls: Rc::new(Cell::new(self.ipulls.get())) }
+    }
 }
 fn leaf(id: i128) -> LeafH {
     LeafH { id, pulls: Rc::new(Cell::new(0)), ipulls: Rc::new(Cell::new(0)) }
 }
 
 /// instrumented iterator behind from_iter / from_interleaved_samples_iter
+#[derive(Clone)]
 struct CountIter<T> {
     it: std::vec::IntoIter<T>,
     h: LeafH,
@@ -86,6 +138,7 @@ impl<T> Iterator for CountIter<T> {
 }
 
 /// instrumented source signal: counts Signal::next calls
+#[derive(Clone)]
 struct Probe<S> {
     inner: S,
     h: LeafH,
@@ -205,6 +258,81 @@ fn select_frame<F: Fx>(a: F, b: F) -> F {
     F::mk(&v)
 }
 
+/// IntoInterleavedSamples driven through next_sample(), cloned through its own Clone impl
+struct NS<S: Signal>(signal::IntoInterleavedSamples<S>);
+impl<S: Signal> Iterator for NS<S> {
+    type Item = <S::Frame as Frame>::Sample;
+    fn next(&mut self) -> Option<Self::Item> {
+        self.0.next_sample()
+    }
+}
+impl<S: Signal> Clone for NS<S>
+where
+    signal::IntoInterleavedSamples<S>: Clone,
+{
+    fn clone(&self) -> Self {
+        NS(self.0.clone())
+    }
+}
+
+fn emit<T>(r: Option<T>, enc: &dyn Fn(T) -> Vec<i128>, out: &mut Vec<String>) -> bool {
+    match r {
+        Some(x) => {
+            let v = enc(x);
+            out.push(line(v[0], &[&v[1..], &drain()]));
+            true
+        }
+        None => {
+            out.push(line(14, &[&drain()]));
+            false
+        }
+    }
+}
+
+fn drain_it<J: Iterator>(it: &mut J, enc: &dyn Fn(J::Item) -> Vec<i128>, cap: i128, mut extra: i128, out: &mut Vec<String>) {
+    for _ in 0..cap {
+        if !emit(it.next(), enc, out) {
+            if extra == 0 {
+                break;
+            }
+            extra -= 1;
+        }
+    }
+}
+
+/// the iterator entry points: plain, clone, nth, skip
+fn run_iter<I: Iterator + Clone>(
+    mut it: I,
+    enc: &dyn Fn(I::Item) -> Vec<i128>,
+    pre: i128,
+    mode: i128,
+    k: i128,
+    cap: i128,
+    extra: i128,
+    out: &mut Vec<String>,
+) {
+    for _ in 0..pre {
+        emit(it.next(), enc, out);
+    }
+    match mode {
+        0 => drain_it(&mut it, enc, cap, extra, out),
+        1 => {
+            let mut c = it.clone();
+            drain_it(&mut it, enc, cap, extra, out);
+            drain_it(&mut c, enc, cap, extra, out);
+        }
+        2 => {
+            emit(it.nth(k as usize), enc, out);
+            drain_it(&mut it, enc, cap, extra, out);
+        }
+        _ => {
+            let mut sk = it.skip(k as usize);
+            emit(sk.next(), enc, out);
+            drain_it(&mut sk, enc, cap, extra, out);
+        }
+    }
+}
+
 struct Toks<'t> {
     t: Vec<&'t str>,
     p: usize,
@@ -249,8 +377,8 @@ macro_rules! fmt_mod {
                         let n = cx.tk.int() as usize;
                         let frames: Vec<Fr> = (0..n).map(|_| Fr::mk(&cx.tk.ints(N))).collect();
                         let h = leaf(id);
-                        cx.handles.push(h.clone());
-                        let it = CountIter { it: frames.into_iter(), h: h.clone() };
+                        cx.handles.push(h.share());
+                        let it = CountIter { it: frames.into_iter(), h: h.share() };
                         dy(Probe { inner: signal::from_iter(it), h })
                     }
                     "samp" => {
@@ -258,8 +386,8 @@ macro_rules! fmt_mod {
                         let n = cx.tk.int() as usize;
                         let samples: Vec<$S> = cx.tk.ints(n).into_iter().map(<$S as Sm>::of).collect();
                         let h = leaf(id);
-                        cx.handles.push(h.clone());
-                        let it = CountIter { it: samples.into_iter(), h: h.clone() };
+                        cx.handles.push(h.share());
+                        let it = CountIter { it: samples.into_iter(), h: h.share() };
                         dy(Probe { inner: signal::from_interleaved_samples_iter::<_, Fr>(it), h })
                     }
                     "eq" => dy(signal::equilibrium::<Fr>()),
@@ -267,7 +395,7 @@ macro_rules! fmt_mod {
                         let id = cx.tk.int();
                         let c = Fr::mk(&cx.tk.ints(N));
                         let h = leaf(id);
-                        cx.handles.push(h.clone());
+                        cx.handles.push(h.share());
                         dy(signal::gen(move || {
                             h.pulls.set(h.pulls.get() + 1);
                             log(&[2, id]);
@@ -278,7 +406,7 @@ macro_rules! fmt_mod {
                         let id = cx.tk.int();
                         let base = cx.tk.int();
                         let h = leaf(id);
-                        cx.handles.push(h.clone());
+                        cx.handles.push(h.share());
                         let mut n: i128 = 0;
                         dy(signal::gen_mut(move || {
                             h.pulls.set(h.pulls.get() + 1);
@@ -374,8 +502,8 @@ macro_rules! fmt_mod {
                     "ref" => {
                         let i = cx.tk.int() as usize;
                         let b: &'a mut Dyn<'static, Fr> = cx.slots[i].take().expect("base borrowed twice");
-                        cx.handles.extend(cx.bh[i].iter().cloned());
-                        dy(<Dyn<'static, Fr> as Signal>::by_ref(b))
+                        cx.handles.extend(cx.bh[i].iter().map(|h| h.share()));
+                        dy(RefSig(b))
                     }
                     "arg" => cx.arg.take().expect("arg outside lift"),
                     other => panic!("unknown node {}", other),
@@ -500,10 +628,10 @@ macro_rules! fmt_mod {
                             let mut extra = tk.int();
                             let mut cx = Cx { tk, slots, bh: &bh, handles: Vec::new(), arg: None };
                             let h = leaf(id);
-                            let src = CountIter { it: frames.into_iter(), h: h.clone() };
+                            let src = CountIter { it: frames.into_iter(), h: h.share() };
                             let cxr = &mut cx;
                             let mut it = signal::lift(src, move |sig| {
-                                cxr.arg = Some(dy(Probe { inner: sig, h: h.clone() }));
+                                cxr.arg = Some(dy(Probe { inner: sig, h: h.share() }));
                                 parse_lift(cxr, &h)
                             });
                             out.push(line(10, &[&drain()]));
@@ -522,6 +650,57 @@ macro_rules! fmt_mod {
                             drop(it);
                             out.push(counts(&cx.handles));
                         }
+                        "NC" => {
+                            let j = tk.int();
+                            let k = tk.int();
+                            let mut cx = Cx { tk, slots, bh: &bh, handles: Vec::new(), arg: None };
+                            let mut s = parse(&mut cx);
+                            out.push(line(10, &[&drain()]));
+                            let obs_next = |s: &mut Dyn<'_, Fr>, out: &mut Vec<String>| {
+                                let e0 = s.is_exhausted() as i128;
+                                let f = s.next();
+                                let e1 = s.is_exhausted() as i128;
+                                out.push(line(11, &[&[e0, e1], &f.un(), &drain()]));
+                            };
+                            for _ in 0..j {
+                                obs_next(&mut s, out);
+                            }
+                            let mut c = s.clone();
+                            for _ in 0..k {
+                                obs_next(&mut s, out);
+                            }
+                            for _ in 0..k {
+                                obs_next(&mut c, out);
+                            }
+                            drop(c);
+                            drop(s);
+                            out.push(counts(&cx.handles));
+                        }
+                        "IT" => {
+                            let kind = tk.int();
+                            let n = tk.int() as usize;
+                            let pre = tk.int();
+                            let mode = tk.int();
+                            let k = tk.int();
+                            let cap = tk.int();
+                            let extra = tk.int();
+                            let mut cx = Cx { tk, slots, bh: &bh, handles: Vec::new(), arg: None };
+                            let s = parse(&mut cx);
+                            out.push(line(10, &[&drain()]));
+                            let encf = |f: Fr| {
+                                let mut v = vec![13];
+                                v.extend(f.un());
+                                v
+                            };
+                            let encs = |x: $S| vec![15, Sm::to(x)];
+                            match kind {
+                                0 => run_iter(s.until_exhausted(), &encf, pre, mode, k, cap, extra, out),
+                                1 => run_iter(s.take(n), &encf, pre, mode, k, cap, extra, out),
+                                2 => run_iter(s.into_interleaved_samples().into_iter(), &encs, pre, mode, k, cap, extra, out),
+                                _ => run_iter(NS(s.into_interleaved_samples()), &encs, pre, mode, k, cap, extra, out),
+                            }
+                            out.push(counts(&cx.handles));
+                        }
                         other => panic!("unknown op {}", other),
                     }
                 }
@@ -533,7 +712,7 @@ macro_rules! fmt_mod {
                 let before_arg = cx.tk.t[cx.tk.p..].iter().take_while(|w| **w != "arg").filter(|w| is_leaf_word(w)).count();
                 let s = parse(cx);
                 let at = (start + before_arg).min(cx.handles.len());
-                cx.handles.insert(at, h.clone());
+                cx.handles.insert(at, h.share());
                 s
             }
         }
